@@ -118,6 +118,15 @@ void task_group_context_impl::bind_to_impl(d1::task_group_context& ctx, thread_d
     ctx.my_parent = td->my_task_dispatcher->m_execute_data_ext.context;
     __TBB_ASSERT(ctx.my_parent, nullptr);
 
+    // Binding propagates a cancellation of the parent to the new child; it must not erase a cancellation that
+    // was requested on the child itself before (or while) it is being bound.
+    auto inherit_cancellation_state = [&ctx] {
+        std::uint32_t parent_state = ctx.my_parent->my_cancellation_requested.load(std::memory_order_relaxed);
+        if (parent_state) {
+            ctx.my_cancellation_requested.store(parent_state, std::memory_order_relaxed);
+        }
+    };
+
     // Inherit FPU settings only if the context has not captured FPU settings yet.
     if (!ctx.my_traits.fp_settings)
         copy_fp_settings(ctx, *ctx.my_parent);
@@ -141,7 +150,7 @@ void task_group_context_impl::bind_to_impl(d1::task_group_context& ctx, thread_d
         uintptr_t local_count_snapshot = ctx.my_parent->my_context_list->epoch.load(std::memory_order_acquire);
         // Speculative propagation of parent's state. The speculation will be
         // validated by the epoch counters check further on.
-        ctx.my_cancellation_requested.store(ctx.my_parent->my_cancellation_requested.load(std::memory_order_relaxed), std::memory_order_relaxed);
+        inherit_cancellation_state();
         register_with(ctx, td); // Issues full fence
 
         // If no state propagation was detected by the following condition, the above
@@ -151,14 +160,14 @@ void task_group_context_impl::bind_to_impl(d1::task_group_context& ctx, thread_d
         if (local_count_snapshot != the_context_state_propagation_epoch.load(std::memory_order_relaxed)) {
             // Another thread may be propagating state change right now. So resort to lock.
             context_state_propagation_mutex_type::scoped_lock lock(the_context_state_propagation_mutex);
-            ctx.my_cancellation_requested.store(ctx.my_parent->my_cancellation_requested.load(std::memory_order_relaxed), std::memory_order_relaxed);
+            inherit_cancellation_state();
         }
     } else {
         register_with(ctx, td); // Issues full fence
         // As we do not have grand-ancestors, concurrent state propagation (if any)
         // may originate only from the parent context, and thus it is safe to directly
         // copy the state from it.
-        ctx.my_cancellation_requested.store(ctx.my_parent->my_cancellation_requested.load(std::memory_order_relaxed), std::memory_order_relaxed);
+        inherit_cancellation_state();
     }
 }
 
